@@ -11,7 +11,8 @@ from vt import core, sat
 
 PROP = 'C12'
 RULE = ('half/full/saturate adder (with and without carry-in), ripple_carry widths 1..W, ripple_saturate widths w<=s<=S, '
-        'pop_count n=1..N x saturate_at 0..S; all input assignments, all satisfying extensions enumerated. '
+        'pop_count n=1..N x saturate_at 0..S; all input assignments, all satisfying extensions enumerated; wide pop counts (n up to 66/130) over '
+        'all assignments within Hamming distance 1/2 of all-false/all-true; all two-call pop_count histories on one CNF object (n<=4/6, s1,s2<=4, same/prefix/reversed inputs). '
         'Non-trivial = circuit with >=2 distinct output values over its inputs.')
 ASSUMPTIONS = ['pycryptosat as SAT oracle (truth-table cross-check when <=16 variables)',
                'saturating representation as stated in the module docstring (derived from how assert_k_of_n compares)']
@@ -34,7 +35,35 @@ def items(tier, seed):
     for n in (2, 3, 5):
         for s in (0, 2, 3):
             out.append({'fn': 'pop_count', 'n': n, 's': s, 'gapped': True})
+    # wide pop counts (padding to the next power of two, lengths around powers of two): all assignments within Hamming
+    # distance D of all-false and of all-true (deviation-bounded; exhaustive inside the bound)
+    wide = (12, 15, 16, 17, 31, 32, 33, 34, 63, 64, 65, 66) if tier == 'quick' else tuple(range(12, 70)) + (127, 128, 129, 130)
+    for n in wide:
+        for s in (0, 2, 3):
+            out.append({'fn': 'pop_count', 'n': n, 's': s, 'dev': 1 if (tier == 'quick' or n > 40) else 2})
+    # call histories on ONE CNF object: two pop counts over the same / overlapping inputs with different saturation
+    NS = 4 if tier == 'quick' else 6
+    for n in range(2, NS + 1):
+        for s1 in range(0, 5):
+            for s2 in range(0, 5):
+                for second in ('same', 'prefix', 'reversed'):
+                    out.append({'fn': 'pop_count_seq', 'n': n, 's1': s1, 's2': s2, 'second': second})
     return out
+
+
+def assignments_within(ins, dev):
+    n = len(ins)
+    seen = set()
+    for base in (False, True):
+        for d in range(0, dev + 1):
+            for flip in itertools.combinations(range(n), d):
+                bits = [base] * n
+                for i in flip:
+                    bits[i] = not base
+                t = tuple(bits)
+                if t not in seen:
+                    seen.add(t)
+                    yield t
 
 
 def bits_val(bits):  # MSB first
@@ -100,6 +129,8 @@ def run_item(item):
             top = xb[0] or yb[0] or (xl + yl >= 2 ** (s - 1))
             low = (xl + yl) % (2 ** (s - 1))
             return [top] + [(low >> i) & 1 == 1 for i in reversed(range(s - 1))]
+    elif fn == 'pop_count_seq':
+        return run_seq(item)
     elif fn == 'pop_count':
         n, s = item['n'], item['s']
         if item.get('gapped'):
@@ -124,7 +155,10 @@ def run_item(item):
     viols = []
     states = transitions = 0
     seen_out = set()
-    for bits in itertools.product((False, True), repeat=len(ins)):
+    space = assignments_within(ins, item['dev']) if item.get('dev') else itertools.product((False, True), repeat=len(ins))
+    if item.get('dev'):
+        sig = dict(sig, wide=True)
+    for bits in space:
         a = dict(zip(ins, bits))
         assumptions = [v if b else -v for v, b in a.items()]
         models = sat.all_models(clauses, over=aux, assumptions=assumptions, limit=3)
@@ -154,6 +188,56 @@ def run_item(item):
             first.setdefault(v['kind'], v)
         return core.bad(list(first.values()), states, transitions, 0, nontrivial, outcome)
     return core.ok(states, transitions, 0, nontrivial, outcome)
+
+
+def run_seq(item):
+    """Two pop_count calls on one CNF object; both results must be right under every input assignment."""
+    from sweetpea._internal.core.cnf import CNF, Var
+    n = item['n']
+    ins = list(range(1, n + 1))
+    second = {'same': ins, 'prefix': ins[:-1], 'reversed': list(reversed(ins))}[item['second']]
+    cnf = CNF.from_fresh(n)
+    calls = [(ins, item['s1']), (second, item['s2'])]
+    outs = []
+    for lst, s in calls:
+        o = cnf.pop_count([Var(i) for i in lst], s)
+        outs.append([int(x) for x in o])
+    sig = {'fn': 'pop_count_seq', 'second': item['second']}
+    clauses = sat.cnf_to_lists(cnf)
+    allv = sorted(set(sat.variables_of(clauses)) | {v for o in outs for v in o})
+    aux = [v for v in allv if v not in ins]
+    viols = []
+    states = transitions = 0
+    seen_out = set()
+    for bits in itertools.product((False, True), repeat=n):
+        a = dict(zip(ins, bits))
+        assumptions = [v if b else -v for v, b in a.items()]
+        models = sat.all_models(clauses, over=aux, assumptions=assumptions, limit=3)
+        states += 1; transitions += len(models) + 1
+        if len(models) != 1:
+            viols.append(core.viol('no_extension' if not models else 'extension_not_unique', sig, item=item,
+                                   inputs={str(k): v for k, v in a.items()}, extensions=len(models)))
+            continue
+        val = dict(a)
+        for l in models[0]:
+            val[abs(l)] = l > 0
+        for ci, ((lst, s), o) in enumerate(zip(calls, outs)):
+            total = sum(1 for i in lst if a[i])
+            exp, representable = sat_repr(total, s, len(o))
+            got = [val[v] for v in o]
+            seen_out.add((ci, tuple(got)))
+            if not representable:
+                viols.append(core.viol('output_too_narrow', dict(sig, call=ci), item=item, inputs={str(k): v for k, v in a.items()}))
+            elif [bool(x) for x in exp] != got:
+                viols.append(core.viol('wrong_sum', dict(sig, call=ci), item=item, inputs={str(k): v for k, v in a.items()},
+                                       expected=[int(bool(x)) for x in exp], got=[int(x) for x in got]))
+    outcome = ['pop_count_seq', [len(o) for o in outs], len(seen_out)]
+    if viols:
+        first = {}
+        for v in viols:
+            first.setdefault(core.canon(v['sig']), v)
+        return core.bad(list(first.values()), states, transitions, 0, True, outcome)
+    return core.ok(states, transitions, 0, len(seen_out) >= 3, outcome)
 
 
 def sample_of(item, res):
